@@ -79,10 +79,15 @@ class HandleBootloader(Contract):
     # ---- C10: the PIN file is written only after the device acknowledged the new PIN, with that very PIN
     @only("C10")
     def commit_only_after_acknowledgement(self, g, old):
-        p = self.pin._new_pin
-        return (self.pin._changing and pin_policy(p) and ok_change_pin(g) and pin_in_log(g) == p
+        return (self.pin._changing and ok_change_pin(g)
+                and sel(g.cnt, CMD_CHANGE_PIN) == sel(old.g.cnt, CMD_CHANGE_PIN) + 1
                 and g.fs_writes == old.g.fs_writes and g.pinfile == old.g.pinfile)
-    at_calls = {"unlock": [unlock_only_when_safe], "new_pin": [new_pin_only_after_unlock],
+    @only("C10")
+    def device_is_sent_the_generated_pin(self, arg_pin):
+        """the PIN offered to the device is the one start_change generated (valid by the policy), which is the
+        one commit_change will write"""
+        return self.pin._changing and arg_pin == self.pin._new_pin and pin_policy(arg_pin)
+    at_calls = {"unlock": [unlock_only_when_safe], "new_pin": [new_pin_only_after_unlock, device_is_sent_the_generated_pin],
                 "commit_change": [commit_only_after_acknowledgement]}
 
     @only("C10")
@@ -108,10 +113,10 @@ class HandleBootloader(Contract):
         return implies(not ok_change_pin(g) or sel(g.cnt, CMD_CHANGE_PIN) == sel(old.g.cnt, CMD_CHANGE_PIN),
                        g.pinfile == old.g.pinfile and self.pin._pin == field(field(old.self, "pin"), "_pin"))
     @only("C10")
-    def x_acknowledged_pin_is_on_disk(g, old):
+    def x_acknowledged_pin_is_on_disk(self, g, old):
         """crash / failure safety: once the device has adopted a new PIN, that PIN is what the file holds"""
         return implies(ok_change_pin(g) and sel(g.cnt, CMD_CHANGE_PIN) == sel(old.g.cnt, CMD_CHANGE_PIN) + 1,
-                       g.pinfile == pin_in_log(g))
+                       g.pinfile == self.pin._pin and not self.pin._needs_change)
     def x_no_file_change(g, old): return g.pinfile == old.g.pinfile and g.fs_writes == old.g.fs_writes
     C10X = [x_file_changes_only_after_acknowledgement, x_refused_or_failed_change_leaves_pin_untouched,
             x_acknowledged_pin_is_on_disk]
